@@ -599,28 +599,31 @@ def headWindow (buf : Bytes) : Option (P RawHead) :=
     | .bad c => some (.bad c)
     | .ok h rest => some (.ok h (buf.drop (maxBuf - rest.length)))
 
+/-- hyper `Conn::on_parse_error`: a head that does not parse is answered with the status of the error and the
+    connection ends — unless what is in the buffer (leading line ends dropped) is the HTTP/2 preface -/
+def onParseError (lastV11 : Bool) (code : Nat) (buf : Bytes) : Out :=
+  if h2Preface.isPrefixOf (dropLeadingNewlines buf) then .h2 else .err lastV11 code
+
 /-- One connection: every byte the client ever sends ↦ what the server sends back until it closes.
     `lastV11`: version of the last request read (the version of hyper's own error answers). -/
 def serveAux (c : Cfg) : Nat → Bool → Bytes → List Out
   | 0, _, _ => []
   | fuel + 1, lastV11, buf =>
-    if h2Preface.isPrefixOf (dropLeadingNewlines buf) then [.h2]
-    else
-      match headWindow buf with
-      | none => [.unsupported]
-      | some .more => []                       -- nothing more, or half a head, when the client is done
-      | some (.bad code) => [.err lastV11 code]
-      | some (.ok h rest) =>
-        match interpret h with
-        | .bad code => [.err lastV11 code]
-        | .unsupported => [.unsupported]
-        | .ok m =>
-          match answer c m with
-          | .panic s => [.dropped s]
-          | .ok r =>
-            match (if m.keepAlive then drainBody m rest else none) with
-            | none => [.resp (frame m r)]
-            | some rest' => .resp (frame m r) :: serveAux c fuel m.v11 rest'
+    match headWindow buf with
+    | none => [.unsupported]
+    | some .more => []                         -- nothing more, or half a head, when the client is done
+    | some (.bad code) => [onParseError lastV11 code buf]
+    | some (.ok h rest) =>
+      match interpret h with
+      | .bad code => [onParseError lastV11 code buf]
+      | .unsupported => [.unsupported]
+      | .ok m =>
+        match answer c m with
+        | .panic s => [.dropped s]
+        | .ok r =>
+          match (if m.keepAlive then drainBody m rest else none) with
+          | none => [.resp (frame m r)]
+          | some rest' => .resp (frame m r) :: serveAux c fuel m.v11 rest'
 
 def serve (c : Cfg) (stream : Bytes) : List Out := serveAux c (stream.length + 1) true stream
 
